@@ -466,6 +466,219 @@ Proof.
   destruct (N.ltb_spec rem per); [reflexivity | lia].
 Qed.
 
+(** * Chunks: the sort by first height, tiling of the range, the boundary check *)
+
+Lemma In_seqN x s n : In x (seqN s n) -> s <= x /\ x < s + N.of_nat n.
+Proof.
+  intros H. apply In_cnt_pos in H. rewrite cnt_seqN in H. apply ind_pos in H. exact H.
+Qed.
+
+Lemma NoDup_seqN s n : NoDup (seqN s n).
+Proof.
+  apply (proj2 (NoDup_count_occ N.eq_dec _)). intros x.
+  change (count_occ N.eq_dec (seqN s n) x) with (cnt x (seqN s n)).
+  rewrite cnt_seqN. apply ind_le1.
+Qed.
+
+Definition heights (l : list hdr) : list N := map h_height l.
+
+(** a chunk as doRequest hands it over: non-empty, its heights are first, first+1, ... *)
+Definition chunk_shape (c : list hdr) : Prop :=
+  c <> [] /\ heights c = seqN (first_height c) (length c).
+
+Lemma insert_c_In x l y : In y (insert_c x l) <-> y = x \/ In y l.
+Proof.
+  induction l as [|a l IH]; cbn [insert_c].
+  - cbn. intuition.
+  - destruct (first_height x <? first_height a); cbn; [intuition|]. rewrite IH. intuition.
+Qed.
+
+Lemma sort_c_In l y : In y (sort_c l) <-> In y l.
+Proof.
+  induction l as [|a l IH]; cbn [sort_c]; [reflexivity|].
+  rewrite insert_c_In, IH. cbn. intuition.
+Qed.
+
+Lemma insert_c_cnt x l z :
+  cnt z (heights (concat (insert_c x l))) = cnt z (heights (concat (x :: l))).
+Proof.
+  induction l as [|a l IH]; cbn [insert_c]; [reflexivity|].
+  destruct (first_height x <? first_height a); [reflexivity|].
+  unfold heights in *. cbn [concat] in *. rewrite !map_app, !cnt_app in *. rewrite IH. lia.
+Qed.
+
+Lemma sort_c_cnt l z : cnt z (heights (concat (sort_c l))) = cnt z (heights (concat l)).
+Proof.
+  induction l as [|a l IH]; cbn [sort_c]; [reflexivity|].
+  rewrite insert_c_cnt. unfold heights in *. cbn [concat]. rewrite !map_app, !cnt_app, IH. reflexivity.
+Qed.
+
+Lemma insert_c_sorted x l : sortedN (map first_height l) -> sortedN (map first_height (insert_c x l)).
+Proof.
+  induction l as [|a l IH]; cbn [insert_c]; [intros _; exact I|].
+  intros Hs. destruct (N.ltb_spec (first_height x) (first_height a)) as [Hlt|Hge].
+  - cbn [map sortedN]. split; [lia | exact Hs].
+  - assert (Hs' : sortedN (map first_height l)) by (destruct l; [exact I | apply Hs]).
+    specialize (IH Hs').
+    destruct l as [|b l]; cbn [insert_c map sortedN] in *; [split; [lia | exact I]|].
+    destruct (N.ltb_spec (first_height x) (first_height b)); cbn [map sortedN] in *.
+    + split; [lia|]. exact IH.
+    + split; [apply Hs|]. exact IH.
+Qed.
+
+Lemma sort_c_sorted l : sortedN (map first_height (sort_c l)).
+Proof. induction l as [|a l IH]; cbn [sort_c]; [exact I | apply insert_c_sorted, IH]. Qed.
+
+Lemma sort_c_Forall (P : list hdr -> Prop) l : Forall P l -> Forall P (sort_c l).
+Proof.
+  intros H. apply Forall_forall. intros c Hc. apply (proj1 (sort_c_In _ _)) in Hc.
+  rewrite Forall_forall in H. apply H, Hc.
+Qed.
+
+Lemma in_concat_iff (l : list (list hdr)) h : In h (concat l) <-> exists c, In c l /\ In h c.
+Proof.
+  induction l as [|a l IH]; cbn [concat].
+  - split; [intros [] | intros (c & [] & _)].
+  - rewrite in_app_iff, IH. split.
+    + intros [H|(c & Hc & Hh)]; [exists a; split; [left; reflexivity | exact H] | exists c; split; [right; exact Hc | exact Hh]].
+    + intros (c & [<-|Hc] & Hh); [left; exact Hh | right; exists c; split; assumption].
+Qed.
+
+Lemma chunk_first_in c : chunk_shape c -> In (first_height c) (heights c) /\ (1 <= length c)%nat.
+Proof.
+  intros [Hne Hh]. destruct c as [|a c]; [contradiction|]. split; [left; reflexivity | cbn; lia].
+Qed.
+
+(** chunks sorted by first height whose heights together are exactly [start, start+amount):
+    the first chunk starts at [start] and the others tile the rest *)
+Lemma tiling_head c r start amount :
+  sortedN (map first_height (c :: r)) -> Forall chunk_shape (c :: r) ->
+  (forall x, cnt x (heights (concat (c :: r))) = ind start amount x) ->
+  first_height c = start /\ N.of_nat (length c) <= amount /\
+  (forall x, cnt x (heights (concat r)) = ind (start + N.of_nat (length c)) (amount - N.of_nat (length c)) x).
+Proof.
+  intros Hs Hf Hc.
+  inversion Hf as [|? ? Hcs Hfr]; subst.
+  destruct (chunk_first_in c Hcs) as [Hin Hlen]. destruct Hcs as [Hne Hh].
+  set (o := first_height c) in *. set (k := N.of_nat (length c)) in *.
+  assert (Hcc : forall x, cnt x (heights c) = ind o k x) by (intros x; rewrite Hh; apply cnt_seqN).
+  assert (Hsplit : forall x, cnt x (heights (concat (c :: r))) = (ind o k x + cnt x (heights (concat r)))%nat).
+  { intros x. unfold heights. cbn [concat]. rewrite map_app, cnt_app. fold (heights c). rewrite Hcc. reflexivity. }
+  (* o is covered, so it lies in the range *)
+  assert (Ho : start <= o /\ o < start + amount).
+  { apply (ind_pos start amount o). rewrite <- Hc, Hsplit, ind_in by lia. lia. }
+  (* start is covered by some chunk, all of which start at or after o *)
+  assert (Hstart : o <= start).
+  { assert (Hcov : (0 < cnt start (heights (concat (c :: r))))%nat) by (rewrite Hc, ind_in by lia; lia).
+    apply cnt_pos_In in Hcov. unfold heights in Hcov. apply in_map_iff in Hcov as (h & Hhh & Hin').
+    apply in_concat_iff in Hin' as (c' & Hc' & Hhc').
+    assert (Hle : o <= first_height c').
+    { destruct Hc' as [<-|Hc']; [lia|]. apply (sortedN_head_le o (map first_height r) Hs).
+      apply in_map, Hc'. }
+    rewrite Forall_forall in Hf. destruct (Hf c' Hc') as [_ Hh'].
+    assert (Hin'' : In start (heights c')) by (rewrite <- Hhh; apply in_map, Hhc').
+    rewrite Hh' in Hin''. apply In_seqN in Hin''. lia. }
+  assert (Heq : o = start) by lia.
+  (* the last height of c is covered *)
+  assert (Hk : k <= amount).
+  { assert (Hcov : (0 < ind start amount (o + k - 1))%nat).
+    { rewrite <- Hc, Hsplit, ind_in by lia. lia. }
+    apply ind_pos in Hcov. lia. }
+  split; [exact Heq|]. split; [exact Hk|].
+  intros x. specialize (Hc x). rewrite Hsplit in Hc.
+  replace amount with (k + (amount - k)) in Hc at 1 by lia. rewrite ind_split, Heq in Hc. lia.
+Qed.
+
+Lemma tiling : forall cs start amount,
+  sortedN (map first_height cs) -> Forall chunk_shape cs ->
+  (forall x, cnt x (heights (concat cs)) = ind start amount x) ->
+  heights (concat cs) = seqN start (N.to_nat amount).
+Proof.
+  induction cs as [|c r IH]; intros start amount Hs Hf Hc.
+  - destruct (N.eq_dec amount 0) as [->|Hnz]; [reflexivity|].
+    specialize (Hc start). cbn in Hc. rewrite ind_in in Hc by lia. discriminate.
+  - destruct (tiling_head c r start amount Hs Hf Hc) as (Ho & Hk & Hrest).
+    pose proof (Forall_inv Hf) as [Hne Hh]. pose proof (Forall_inv_tail Hf) as Hfr.
+    assert (Hs' : sortedN (map first_height r)) by (destruct r; [exact I | apply Hs]).
+    specialize (IH _ _ Hs' Hfr Hrest).
+    unfold heights in *. cbn [concat]. rewrite map_app, Hh, IH, Ho.
+    replace (N.to_nat amount) with (length c + N.to_nat (amount - N.of_nat (length c)))%nat by lia.
+    rewrite seqN_app. reflexivity.
+Qed.
+
+(** two lists with the same (duplicate-free) heights and the same elements are equal *)
+Lemma eq_by_heights : forall l1 l2 : list hdr,
+  heights l1 = heights l2 -> NoDup (heights l1) -> (forall h, In h l1 -> In h l2) -> l1 = l2.
+Proof.
+  unfold heights. induction l1 as [|a l1 IH]; intros [|b l2] Hh Hnd Hin; try discriminate; [reflexivity|].
+  cbn [map] in Hh, Hnd. injection Hh as Hab Ht. inversion Hnd as [|? ? Hnot Hnd']; subst.
+  assert (a = b).
+  { destruct (Hin a (or_introl eq_refl)) as [->|Ha]; [reflexivity|].
+    exfalso. apply Hnot. rewrite Ht. apply in_map, Ha. }
+  subst b. f_equal. apply IH; [exact Ht | exact Hnd'|].
+  intros h Hh. destruct (Hin h (or_intror Hh)) as [<-|Hh2]; [|exact Hh2].
+  exfalso. apply Hnot. apply in_map, Hh.
+Qed.
+
+(** [chain W prev l]: each element of [l] is related by [W] to the element before it ([prev] for the first) *)
+Fixpoint chain (W : hdr -> hdr -> Prop) (prev : hdr) (l : list hdr) : Prop :=
+  match l with
+  | [] => True
+  | u :: r => W prev u /\ chain W u r
+  end.
+
+Lemma chain_app W p l1 l2 : chain W p (l1 ++ l2) <-> chain W p l1 /\ chain W (last l1 p) l2.
+Proof.
+  revert p. induction l1 as [|a l1 IH]; intros p; cbn [app chain]; [cbn; tauto|].
+  rewrite IH. rewrite (last_cons_default p a l1). tauto.
+Qed.
+
+Section boundary.
+Variables (drift : Z) (tv : hdr -> hdr -> tvres).
+
+Lemma chain_of_verified (W : hdr -> hdr -> Prop) now t c :
+  (forall a b, Verify now drift tv a b = None -> W a b) ->
+  chain_verified now drift tv t c -> chain W t c.
+Proof.
+  intros HW. revert t. induction c as [|a c IH]; intros t; cbn [chain_verified chain]; [auto|].
+  intros [Hv Hc]. split; [apply HW, Hv | apply IH, Hc].
+Qed.
+
+(** the boundary loop never panics on non-empty chunks *)
+Lemma boundaries_no_panic now : forall r prev,
+  prev <> [] -> Forall (fun c => c <> []) r -> boundaries now drift tv prev r <> BPanic.
+Proof.
+  induction r as [|c r IH]; intros prev Hp Hf; cbn [boundaries]; [discriminate|].
+  inversion Hf as [|? ? Hc Hr]; subst.
+  destruct prev as [|p0 prev']; [contradiction|]. destruct c as [|u c']; [contradiction|].
+  destruct (Verify now drift tv (last (p0 :: prev') hdr_nil) u); [discriminate|].
+  apply IH; [discriminate | exact Hr].
+Qed.
+
+(** a passed boundary check chains the chunks together *)
+Lemma boundaries_chain (W : hdr -> hdr -> Prop) now :
+  (forall a b, Verify now drift tv a b = None -> W a b) ->
+  forall r prev d,
+  prev <> [] -> boundaries now drift tv prev r = BOk ->
+  Forall (fun c => forall t, W t (hd hdr_nil c) -> chain W t c) r ->
+  chain W (last prev d) (concat r).
+Proof.
+  intros HW. induction r as [|c r IH]; intros prev d Hp Hb Hf; cbn [boundaries concat] in *; [exact I|].
+  inversion Hf as [|? ? Hc Hr]; subst.
+  destruct prev as [|p0 prev']; [contradiction|]. destruct c as [|u c']; [discriminate|].
+  destruct (Verify now drift tv (last (p0 :: prev') hdr_nil) u) eqn:Hv; [discriminate|].
+  apply chain_app. split.
+  - apply Hc. cbn [hd]. apply HW.
+    assert (Hl : last (p0 :: prev') d = last (p0 :: prev') hdr_nil).
+    { clear. revert p0. induction prev' as [|x l IHl]; intros p0; [reflexivity|].
+      change (last (p0 :: x :: l) d) with (last (x :: l) d).
+      change (last (p0 :: x :: l) hdr_nil) with (last (x :: l) hdr_nil). apply IHl. }
+    rewrite Hl. exact Hv.
+  - apply (IH (u :: c') (last (p0 :: prev') d)); [discriminate | exact Hb | exact Hr].
+Qed.
+
+End boundary.
+
 (** * The safety invariant *)
 
 Definition ev_nows (ev : event) : list Z := match ev with ERespond _ now _ => [now] | _ => [] end.
@@ -485,11 +698,13 @@ Hypothesis Hbound : start + amount < two64.
 Definition V (nows : list Z) (t u : hdr) : Prop :=
   exists now, In now nows /\ Verify now drift tv t u = None.
 
-(** a collected header: it was sent by a peer, passed Validate, and passed Verify
-    against [from] or against the collected header one below it *)
-Definition good (nows : list Z) (U coll : list hdr) (h : hdr) : Prop :=
-  In h U /\ h_ok h = true /\
-  (V nows from h \/ exists p, In p coll /\ h_height h = h_height p + 1 /\ V nows p h).
+(** a collected header: it was sent by a peer and passed Validate *)
+Definition good (U : list hdr) (h : hdr) : Prop := In h U /\ h_ok h = true.
+
+(** a collected chunk: non-empty, consecutive heights, verified by VerifyRange against [from]
+    at one of the clock readings *)
+Definition chunk_ok (nows : list Z) (c : list hdr) : Prop :=
+  chunk_shape c /\ exists now, In now nows /\ chain_verified now drift tv from c.
 
 Record Live (nows : list Z) (U : list hdr) (s : sess) : Prop := {
   lv_amount : s_amount s = amount;
@@ -497,10 +712,14 @@ Record Live (nows : list Z) (U : list hdr) (s : sess) : Prop := {
   lv_sum : N.of_nat (length (s_coll s)) + sum_amounts (outstanding s) = amount;
   lv_req : Forall (fun r => 1 <= r_amount r /\ start <= r_origin r /\ r_origin r + r_amount r <= start + amount)
                   (outstanding s);
-  lv_good : Forall (good nows U (s_coll s)) (s_coll s) }.
+  lv_good : Forall (good U) (s_coll s);
+  lv_concat : concat (s_chunks s) = s_coll s;
+  lv_chunks : Forall (chunk_ok nows) (s_chunks s) }.
 
+(** the returned slice: exactly the requested heights, sent and validated headers, and one
+    Verify chain from [from] *)
 Definition Final (nows : list Z) (U : list hdr) (res : list hdr) : Prop :=
-  map h_height res = seqN start (N.to_nat amount) /\ Forall (good nows U res) res.
+  map h_height res = seqN start (N.to_nat amount) /\ Forall (good U) res /\ chain (V nows) from res.
 
 Definition Inv (nows : list Z) (U : list hdr) (s : sess) : Prop :=
   match s_res s with
@@ -513,24 +732,30 @@ Definition Inv (nows : list Z) (U : list hdr) (s : sess) : Prop :=
 Lemma V_mono nows nows' t u : incl nows nows' -> V nows t u -> V nows' t u.
 Proof. intros Hi (now & Hin & Hv). exists now. split; [apply Hi, Hin | exact Hv]. Qed.
 
-Lemma good_mono nows nows' U U' coll coll' h :
-  incl nows nows' -> incl U U' -> incl coll coll' -> good nows U coll h -> good nows' U' coll' h.
-Proof.
-  intros Hn HU Hc (HinU & Hok & Hv). split; [apply HU, HinU|]. split; [exact Hok|].
-  destruct Hv as [Hv|(p & Hp & Hh & Hv)]; [left; eapply V_mono; eauto|].
-  right. exists p. split; [apply Hc, Hp|]. split; [exact Hh | eapply V_mono; eauto].
-Qed.
+Lemma good_mono U U' h : incl U U' -> good U h -> good U' h.
+Proof. intros HU (HinU & Hok). split; [apply HU, HinU | exact Hok]. Qed.
 
-Lemma Forall_good_mono nows nows' U U' coll coll' l :
-  incl nows nows' -> incl U U' -> incl coll coll' ->
-  Forall (good nows U coll) l -> Forall (good nows' U' coll') l.
+Lemma Forall_good_mono U U' l : incl U U' -> Forall (good U) l -> Forall (good U') l.
 Proof. intros. eapply Forall_impl; [|eassumption]. intros h. apply good_mono; assumption. Qed.
+
+Lemma chunk_ok_mono nows nows' c : incl nows nows' -> chunk_ok nows c -> chunk_ok nows' c.
+Proof. intros Hi (Hs & now & Hin & Hv). split; [exact Hs|]. exists now. split; [apply Hi, Hin | exact Hv]. Qed.
+
+Lemma chain_mono (W W' : hdr -> hdr -> Prop) p l :
+  (forall a b, W a b -> W' a b) -> chain W p l -> chain W' p l.
+Proof.
+  intros HW. revert p. induction l as [|u l IH]; intros p; cbn [chain]; [auto|].
+  intros [H1 H2]. split; [apply HW, H1 | apply IH, H2].
+Qed.
 
 Lemma Inv_mono nows nows' U U' s : incl nows nows' -> incl U U' -> Inv nows U s -> Inv nows' U' s.
 Proof.
   intros Hn HU. unfold Inv. destruct (s_res s) as [[l|e| |]|]; auto.
-  - intros [Hh Hg]. split; [exact Hh|]. eapply Forall_good_mono; eauto. apply incl_refl.
-  - intros [H1 H2 H3 H4 H5]. constructor; auto. eapply Forall_good_mono; eauto. apply incl_refl.
+  - intros (Hh & Hg & Hc). split; [exact Hh|]. split; [eapply Forall_good_mono; eauto|].
+    eapply chain_mono; [|exact Hc]. intros a b. apply V_mono, Hn.
+  - intros [H1 H2 H3 H4 H5 H6 H7]. constructor; auto.
+    + eapply Forall_good_mono; eauto.
+    + eapply Forall_impl; [|exact H7]. intros c. apply chunk_ok_mono, Hn.
 Qed.
 
 Lemma sum_zero_nil (P : req -> Prop) l :
@@ -540,21 +765,68 @@ Proof.
   inversion Hf as [|? ? Hr _]; subst. apply HP in Hr. cbn in Hs. lia.
 Qed.
 
-(** the collector has enough headers: they are exactly the requested heights *)
-Lemma finish nows U s :
-  Live nows U s -> amount <= N.of_nat (length (s_coll s)) -> Final nows U (sort_h (s_coll s)).
+(** the collector has enough headers: the sorted chunks tile the range, the sorted slice is their
+    concatenation; the boundary check either fails (an error) or makes it one chain *)
+Lemma finish_inv nows U s now :
+  Live nows U s -> In now nows -> amount <= N.of_nat (length (s_coll s)) ->
+  match finish now drift tv from (s_coll s) (s_chunks s) with
+  | ROk l => Final nows U l
+  | RErr e => e <> ERangeMixUp
+  | RPanic | RFuel => False
+  end.
 Proof.
-  intros [_ Hc Hs Hr Hg] Hlen.
+  intros [_ Hc Hs Hr Hg Hcat Hch] Hnow Hlen.
   assert (Hz : sum_amounts (outstanding s) = 0) by lia.
   assert (Hnil' : outstanding s = []).
   { eapply sum_zero_nil; [|exact Hr|exact Hz]. cbn. intros r. lia. }
-  split.
-  - apply sort_h_heights. intros x. specialize (Hc x). rewrite Hnil' in Hc. cbn in Hc.
-    rewrite N2Nat.id. lia.
-  - apply Forall_forall. intros h Hin. apply (proj1 (sort_h_In _ _)) in Hin.
-    rewrite Forall_forall in Hg. specialize (Hg h Hin).
-    eapply good_mono; [apply incl_refl | apply incl_refl | | exact Hg].
-    intros y Hy. apply (proj2 (sort_h_In _ _)). exact Hy.
+  assert (Hcnt : forall x, cnt x (map h_height (s_coll s)) = ind start amount x).
+  { intros x. specialize (Hc x). rewrite Hnil' in Hc. cbn in Hc. lia. }
+  set (cs := sort_c (s_chunks s)).
+  assert (Hcs_ok : Forall (chunk_ok nows) cs) by (apply sort_c_Forall, Hch).
+  assert (Hcs_shape : Forall chunk_shape cs).
+  { eapply Forall_impl; [|exact Hcs_ok]. intros c [H _]. exact H. }
+  assert (Hcs_ne : Forall (fun c => c <> []) cs).
+  { eapply Forall_impl; [|exact Hcs_shape]. intros c [H _]. exact H. }
+  assert (Hempty : existsb is_nil (s_chunks s) = false).
+  { destruct (existsb is_nil (s_chunks s)) eqn:E; [|reflexivity].
+    apply existsb_exists in E as (c & Hin & Hc0). rewrite Forall_forall in Hch.
+    destruct (Hch c Hin) as [[Hne _] _]. destruct c; [contradiction | discriminate]. }
+  (* the sorted chunks are the sorted slice *)
+  assert (Hheights : heights (concat cs) = seqN start (N.to_nat amount)).
+  { apply tiling; [apply sort_c_sorted | exact Hcs_shape|].
+    intros x. unfold cs. rewrite sort_c_cnt, Hcat. apply Hcnt. }
+  assert (Hsorted : map h_height (sort_h (s_coll s)) = seqN start (N.to_nat amount)).
+  { apply sort_h_heights. intros x. rewrite N2Nat.id. apply Hcnt. }
+  assert (Heq : sort_h (s_coll s) = concat cs).
+  { apply eq_by_heights.
+    - unfold heights. rewrite Hsorted. symmetry. exact Hheights.
+    - unfold heights. rewrite Hsorted. apply NoDup_seqN.
+    - intros h Hh. apply (proj1 (sort_h_In _ _)) in Hh. rewrite <- Hcat in Hh.
+      apply in_concat_iff in Hh as (c & Hc' & Hhc). apply in_concat_iff. exists c.
+      split; [apply (proj2 (sort_c_In _ _)), Hc' | exact Hhc]. }
+  unfold finish, verify_chunk_boundaries. rewrite Hnil, Hempty. fold cs.
+  assert (HW : forall a b, Verify now drift tv a b = None -> V nows a b).
+  { intros a b Hv. exists now. split; assumption. }
+  assert (Hgood' : Forall (good U) (sort_h (s_coll s))).
+  { apply Forall_forall. intros h Hin. apply (proj1 (sort_h_In _ _)) in Hin.
+    rewrite Forall_forall in Hg. apply Hg, Hin. }
+  destruct cs as [|c r] eqn:Ecs.
+  - split; [exact Hsorted|]. split; [exact Hgood'|]. rewrite Heq. exact I.
+  - pose proof (Forall_inv Hcs_ok) as [[Hcne _] (nowc & Hnowc & Hvc)].
+    destruct (boundaries now drift tv c r) eqn:Hb.
+    + split; [exact Hsorted|]. split; [exact Hgood'|]. rewrite Heq. cbn [concat].
+      apply chain_app. split.
+      * eapply chain_of_verified; [|exact Hvc]. intros a b Hv. exists nowc. split; assumption.
+      * apply (boundaries_chain drift tv (V nows) now HW r c from Hcne Hb).
+        apply Forall_forall. intros c' Hc' t Ht.
+        pose proof (Forall_inv_tail Hcs_ok) as Hr_ok. rewrite Forall_forall in Hr_ok.
+        destruct (Hr_ok c' Hc') as [[Hne' _] (now' & Hnow' & Hv')].
+        destruct c' as [|u c'']; [contradiction|]. cbn [hd] in Ht. cbn [chain_verified] in Hv'.
+        cbn [chain]. split; [exact Ht|]. destruct Hv' as [_ Hv''].
+        eapply chain_of_verified; [|exact Hv'']. intros a b Hv. exists now'. split; assumption.
+    + discriminate.
+    + exfalso. apply (boundaries_no_panic drift tv now r c Hcne); [|exact Hb].
+      apply (Forall_inv_tail Hcs_ne).
 Qed.
 
 Lemma step_inv nows U s ev :
@@ -570,8 +842,8 @@ Proof.
     destruct (remove_peer p (s_idle s)) as [idle'|]; [|unfold Inv; rewrite Hres; exact Hmono].
     destruct (remove_req r (s_queue s)) as [queue'|] eqn:Hrq; [|unfold Inv; rewrite Hres; exact Hmono].
     destruct (remove_req_spec _ _ _ Hrq) as (Hin & Hc & Hs & Hsub).
-    destruct Hmono as [H1 H2 H3 H4 H5].
-    unfold Inv; cbn [s_res]. constructor; cbn [s_amount s_coll s_queue s_flight]; auto.
+    destruct Hmono as [H1 H2 H3 H4 H5 H6 H7].
+    unfold Inv; cbn [s_res]. constructor; cbn [s_amount s_coll s_chunks s_queue s_flight]; auto.
     + intros x. specialize (H2 x). unfold outstanding in *. cbn [s_queue s_flight map snd cnt_reqs] in *.
       rewrite cnt_reqs_app in *. cbn [cnt_reqs]. rewrite Hc in H2. lia.
     + unfold outstanding in *. cbn [s_queue s_flight map snd] in *.
@@ -582,13 +854,13 @@ Proof.
   - (* an answer arrives *)
     destruct (take_flight p (s_flight s)) as [[r flight']|] eqn:Htf; [|unfold Inv; rewrite Hres; exact Hmono].
     destruct (take_flight_spec _ _ _ _ Htf) as (Hin & Hc & Hs & Hsub).
-    destruct Hmono as [H1 H2 H3 H4 H5].
+    destruct Hmono as [H1 H2 H3 H4 H5 H6 H7].
     assert (Hr : 1 <= r_amount r /\ start <= r_origin r /\ r_origin r + r_amount r <= start + amount).
     { rewrite Forall_forall in H4. apply H4. unfold outstanding. apply in_or_app. right.
       apply in_map_iff. exists (p, r). split; [reflexivity | exact Hin]. }
     destruct (do_request now drift tv from r fs) as [e|h|] eqn:Hdo.
     + (* error: same request again *)
-      unfold Inv; cbn [s_res]. constructor; cbn [s_amount s_coll s_queue s_flight]; auto.
+      unfold Inv; cbn [s_res]. constructor; cbn [s_amount s_coll s_chunks s_queue s_flight]; auto.
       * intros x. specialize (H2 x). unfold outstanding in *. cbn [s_queue s_flight] in *.
         rewrite !cnt_reqs_app in *. cbn [cnt_reqs]. rewrite Hc in H2. lia.
       * unfold outstanding in *. cbn [s_queue s_flight] in *.
@@ -623,9 +895,9 @@ Proof.
         rewrite Hlast, wrap64_small by lia.
         rewrite prepare_remainder by lia. reflexivity. }
       rewrite Hrq.
-      set (mid := Sess (s_amount s) (s_queue s ++ rq) (s_idle s ++ [p]) flight' (s_coll s ++ h) None).
+      set (mid := Sess (s_amount s) (s_queue s ++ rq) (s_idle s ++ [p]) flight' (s_coll s ++ h) (s_chunks s ++ [h]) None).
       assert (Hmid : Live (now :: nows) (frame_hdrs fs ++ U) mid).
-      { constructor; subst mid; cbn [s_amount s_coll s_queue s_flight]; auto.
+      { constructor; subst mid; cbn [s_amount s_coll s_chunks s_queue s_flight]; auto.
         * intros x. specialize (H2 x). unfold outstanding in *. cbn [s_queue s_flight] in *.
           rewrite map_app, cnt_app, Hheights, cnt_seqN. fold k.
           rewrite !cnt_reqs_app in *. rewrite Hc in H2.
@@ -648,21 +920,22 @@ Proof.
              destruct Hq as [<-|[]]. cbn. lia.
           -- apply H4, in_or_app. right. apply in_map_iff in Hq as (z & <- & Hz).
              apply in_map_iff. exists z. split; [reflexivity | apply Hsub, Hz].
-        * apply Forall_app. split.
-          -- eapply Forall_good_mono; [apply incl_refl | apply incl_refl | | exact H5].
-             apply incl_appl, incl_refl.
-          -- apply Forall_forall. intros u Hu.
-             split; [apply in_or_app; left; apply Hincl, Hu|].
-             split; [rewrite Forall_forall in Hok; apply Hok, Hu|].
-             destruct (chunk_links drift tv now from h Hver Hcons u Hu) as [(Hvu & _)|(q & Hq & Hh & Hvq)].
-             ++ left. exists now. split; [left; reflexivity | exact Hvu].
-             ++ right. exists q. split; [apply in_or_app; right; exact Hq|].
-                split; [exact Hh|]. exists now. split; [left; reflexivity | exact Hvq]. }
+        * apply Forall_app. split; [exact H5|].
+          apply Forall_forall. intros u Hu.
+          split; [apply in_or_app; left; apply Hincl, Hu|].
+          rewrite Forall_forall in Hok; apply Hok, Hu.
+        * rewrite concat_app. cbn [concat]. rewrite app_nil_r, H6. reflexivity.
+        * apply Forall_app. split; [exact H7|]. constructor; [|constructor].
+          split.
+          -- split; [exact Hne|]. unfold heights. rewrite Hheights.
+             destruct h as [|h0 h']; [contradiction|]. cbn [map seqN] in Hheights. injection Hheights as Hh0 _.
+             cbn [first_height]. rewrite Hh0. reflexivity.
+          -- exists now. split; [left; reflexivity | exact Hver]. }
       fold mid.
       destruct (N.leb_spec (s_amount s) (N.of_nat (length (s_coll s ++ h)))) as [Hdone|Hnot].
       * unfold Inv; cbn [s_res].
-        change (s_coll s ++ h) with (s_coll mid). apply finish; [exact Hmid|].
-        subst mid; cbn [s_coll]. rewrite <- H1. exact Hdone.
+        pose proof (finish_inv (now :: nows) (frame_hdrs fs ++ U) mid now Hmid (or_introl eq_refl)) as Hfin.
+        subst mid; cbn [s_coll s_chunks] in Hfin. apply Hfin. rewrite <- H1. exact Hdone.
       * unfold Inv; cbn [s_res]. exact Hmid.
     + exfalso. exact (do_request_no_panic drift tv now from r fs Hdo).
 Qed.
@@ -700,13 +973,16 @@ Lemma get_range_spec drift tv maxcap per from to peers :
   h_height from < two64 -> to < two64 -> 1 <= per ->
   let start := wrap64 (h_height from + 1) in
   let s0 := get_range maxcap per from to peers in
-  (to <= start /\ s_res s0 = Some (RErr ERangeMixUp)) \/
+  ((h_height from + 1 = two64 \/ to <= start) /\ s_res s0 = Some (RErr ERangeMixUp)) \/
   (start < to /\ maxcap < to - start /\ s_res s0 = Some RPanic) \/
   (start < to /\ to - start <= maxcap /\ s_res s0 = None /\ s_idle s0 = peers /\ s_flight s0 = [] /\
    Live drift tv from start (to - start) [] [] s0).
 Proof.
   intros Hf Ht Hper start s0. subst s0. unfold get_range. fold start.
-  destruct (N.leb_spec to start) as [Hle|Hlt]; [left; split; [exact Hle | reflexivity]|].
+  destruct (N.eqb_spec (h_height from) (two64 - 1)) as [Hmax|Hnmax].
+  { left. split; [left; rewrite Hmax; reflexivity | reflexivity]. }
+  cbn [orb].
+  destruct (N.leb_spec to start) as [Hle|Hlt]; [left; split; [right; exact Hle | reflexivity]|].
   right. rewrite (sub64_le to start) by lia.
   pose proof (div_le_self (to - start) per Hper) as Hdiv.
   destruct (N.le_gt_cases ((to - start) / per) maxcap) as [Hcap|Hcap].
@@ -714,15 +990,25 @@ Proof.
     rewrite Hl. destruct (N.ltb_spec maxcap (to - start)) as [Hbig|Hsmall].
     + left. split; [exact Hlt|]. split; [exact Hbig | reflexivity].
     + right. split; [exact Hlt|]. split; [exact Hsmall|]. cbn [s_res s_idle s_flight].
-      repeat split; cbn [s_amount s_coll s_queue s_flight outstanding map]; unfold outstanding; cbn [s_queue s_flight map];
+      repeat split; cbn [s_amount s_coll s_chunks s_queue s_flight outstanding map concat]; unfold outstanding; cbn [s_queue s_flight map];
         rewrite ?app_nil_r.
       * intros x. cbn. apply Hc.
       * cbn. lia.
       * eapply Forall_impl; [|exact Hfa]. unfold req_ok. intros r. lia.
       * constructor.
+      * constructor.
   - left. split; [exact Hlt|]. split; [lia|].
     unfold prepare_requests. destruct (N.eqb_spec per 0); [reflexivity|].
     destruct (N.ltb_spec maxcap ((to - start) / per)); [reflexivity | lia].
+Qed.
+
+Lemma call_at_max_height drift tv maxcap per from to peers evs :
+  h_height from + 1 = two64 ->
+  GetRangeByHeight drift tv maxcap per from to peers evs = Some (RErr ERangeMixUp).
+Proof.
+  intros E. unfold GetRangeByHeight, get_range.
+  assert (Hm : h_height from = two64 - 1) by lia. rewrite Hm, N.eqb_refl. cbn [orb].
+  erewrite run_done; reflexivity.
 Qed.
 
 (** outcome of the run from any of the three starts *)
@@ -730,7 +1016,7 @@ Lemma call_inv drift tv maxcap per from to peers evs :
   h_nil from = false -> h_height from < two64 -> to < two64 -> 1 <= per ->
   let start := wrap64 (h_height from + 1) in
   let out := GetRangeByHeight drift tv maxcap per from to peers evs in
-  (to <= start /\ out = Some (RErr ERangeMixUp)) \/
+  ((h_height from + 1 = two64 \/ to <= start) /\ out = Some (RErr ERangeMixUp)) \/
   (start < to /\ maxcap < to - start /\ out = Some RPanic) \/
   (start < to /\ to - start <= maxcap /\
    Inv drift tv from start (to - start) (evs_nows evs) (evs_hdrs evs)
@@ -746,92 +1032,6 @@ Proof.
     rewrite !app_nil_r in HI. apply HI. unfold Inv. fold start. rewrite H3. exact H4.
 Qed.
 
-(** ** The positional reading of [good] *)
-
-(** [linked W from prev l]: each element of [l] is related by [W] to [from] itself or to the
-    element just before it ([prev] for the first) *)
-Fixpoint linked (W : hdr -> hdr -> Prop) (from prev : hdr) (l : list hdr) : Prop :=
-  match l with
-  | [] => True
-  | u :: r => (W from u \/ W prev u) /\ linked W from u r
-  end.
-
-Lemma NoDup_seqN s n : NoDup (seqN s n).
-Proof.
-  apply (proj2 (NoDup_count_occ N.eq_dec _)). intros x.
-  change (count_occ N.eq_dec (seqN s n) x) with (cnt x (seqN s n)).
-  rewrite cnt_seqN. apply ind_le1.
-Qed.
-
-Lemma NoDup_map_inj {A B} (f : A -> B) l a b :
-  NoDup (map f l) -> In a l -> In b l -> f a = f b -> a = b.
-Proof.
-  induction l as [|x l IH]; intros Hnd Ha Hb Hf; [destruct Ha|].
-  cbn in Hnd. inversion Hnd as [|? ? Hnot Hnd']; subst.
-  destruct Ha as [->|Ha], Hb as [->|Hb]; auto.
-  - exfalso. apply Hnot. rewrite Hf. apply in_map, Hb.
-  - exfalso. apply Hnot. rewrite <- Hf. apply in_map, Ha.
-Qed.
-
-Lemma In_seqN x s n : In x (seqN s n) -> s <= x /\ x < s + N.of_nat n.
-Proof.
-  intros H. apply In_cnt_pos in H. rewrite cnt_seqN in H. apply ind_pos in H. exact H.
-Qed.
-
-Section positional.
-Variables (W : hdr -> hdr -> Prop) (from : hdr) (start : N) (res : list hdr).
-Hypothesis Hnd : NoDup (map h_height res).
-Hypothesis Hlow : forall p, In p res -> start <= h_height p.
-Hypothesis Hgood : forall u, In u res ->
-  W from u \/ exists p, In p res /\ h_height u = h_height p + 1 /\ W p u.
-
-Lemma linked_aux : forall suf pre prev,
-  res = pre ++ suf ->
-  map h_height suf = seqN (start + N.of_nat (length pre)) (length suf) ->
-  (pre = [] \/ (In prev pre /\ h_height prev + 1 = start + N.of_nat (length pre))) ->
-  linked W from prev suf.
-Proof.
-  induction suf as [|u suf IH]; intros pre prev Hres Hmap Hprev; [exact I|].
-  cbn [map length seqN] in Hmap. injection Hmap as Hu Hmap'.
-  assert (Hin : In u res) by (rewrite Hres; apply in_or_app; right; left; reflexivity).
-  cbn [linked]. split.
-  - destruct (Hgood u Hin) as [Hw|(p & Hp & Hh & Hw)]; [left; exact Hw|].
-    right. destruct Hprev as [->|(Hpin & Hph)].
-    + exfalso. specialize (Hlow p Hp). cbn [length] in Hu. lia.
-    + assert (p = prev); [|subst; exact Hw].
-      eapply NoDup_map_inj; [exact Hnd | exact Hp | rewrite Hres; apply in_or_app; left; exact Hpin | lia].
-  - apply (IH (pre ++ [u]) u).
-    + rewrite <- app_assoc. exact Hres.
-    + rewrite app_length. cbn [length]. rewrite Hmap'. f_equal. lia.
-    + right. split; [apply in_or_app; right; left; reflexivity|].
-      rewrite app_length. cbn [length]. lia.
-Qed.
-
-End positional.
-
-Lemma final_linked drift tv from start amount nows U res :
-  Final drift tv from start amount nows U res ->
-  length res = N.to_nat amount /\
-  Forall (fun h => In h U /\ h_ok h = true /\ start <= h_height h /\ h_height h < start + amount) res /\
-  linked (V drift tv nows) from from res.
-Proof.
-  intros [Hh Hg].
-  assert (Hlen : length res = N.to_nat amount).
-  { rewrite <- (map_length h_height res), Hh. apply seqN_length. }
-  assert (Hrange : forall p, In p res -> start <= h_height p /\ h_height p < start + amount).
-  { intros p Hp. apply (in_map h_height) in Hp. rewrite Hh in Hp. apply In_seqN in Hp. lia. }
-  split; [exact Hlen|]. split.
-  - rewrite Forall_forall in *. intros h Hin. destruct (Hg h Hin) as (H1 & H2 & _).
-    destruct (Hrange h Hin). auto.
-  - apply (linked_aux (V drift tv nows) from start res) with (pre := []).
-    + rewrite Hh. apply NoDup_seqN.
-    + intros p Hp. apply Hrange, Hp.
-    + intros u Hu. rewrite Forall_forall in Hg. destruct (Hg u Hu) as (_ & _ & H). exact H.
-    + reflexivity.
-    + cbn [length]. rewrite N.add_0_r, Hh, Hlen. reflexivity.
-    + left. reflexivity.
-Qed.
-
 (** * C05 *)
 
 (** [u] passed Verify against [t] at the clock reading of one of the answers *)
@@ -839,128 +1039,138 @@ Definition verified_during (drift : Z) (tv : hdr -> hdr -> tvres) (evs : list ev
   exists now, In now (evs_nows evs) /\ Verify now drift tv t u = None.
 
 Theorem result_shape drift tv maxcap per from to peers evs res :
-  h_nil from = false -> h_height from + 1 < two64 -> to < two64 -> 1 <= per ->
+  h_nil from = false -> h_height from < two64 -> to < two64 -> 1 <= per ->
   GetRangeByHeight drift tv maxcap per from to peers evs = Some (ROk res) ->
   h_height from + 1 < to /\
   res <> [] /\
   map h_height res = seqN (h_height from + 1) (N.to_nat (to - (h_height from + 1))) /\
   (forall h, In h res -> h_height h < to /\ h_ok h = true /\ In h (evs_hdrs evs)) /\
-  linked (verified_during drift tv evs) from from res.
+  chain (verified_during drift tv evs) from res.
 Proof.
   intros Hnil Hf Ht Hper Hout.
-  destruct (call_inv drift tv maxcap per from to peers evs Hnil ltac:(lia) Ht Hper) as [(_ & H)|[(_ & _ & H)|(H1 & H2 & HI)]];
+  destruct (call_inv drift tv maxcap per from to peers evs Hnil Hf Ht Hper) as [(_ & H)|[(_ & _ & H)|(H1 & H2 & HI)]];
     try congruence.
-  rewrite (wrap64_small _ Hf) in *.
   unfold GetRangeByHeight in Hout. unfold Inv in HI. rewrite Hout in HI.
-  pose proof HI as [Hh _].
-  destruct (final_linked _ _ _ _ _ _ _ _ HI) as (Hlen & Hall & Hlink).
-  split; [exact H1|]. split.
-  { intros ->. cbn in Hlen. lia. }
-  split; [exact Hh|]. split; [|exact Hlink].
-  intros h Hin. rewrite Forall_forall in Hall. destruct (Hall h Hin) as (Ha & Hb & Hc & Hd).
+  destruct HI as (Hh & Hg & Hc).
+  (* the first header verifies against from: so from is below the start, no wrap-around *)
+  assert (Hlen : length res = N.to_nat (to - wrap64 (h_height from + 1))).
+  { rewrite <- (map_length h_height res), Hh. apply seqN_length. }
+  assert (Hne : res <> []) by (intros ->; cbn in Hlen; lia).
+  assert (Hw : wrap64 (h_height from + 1) = h_height from + 1).
+  { destruct res as [|u res']; [contradiction|]. cbn [chain] in Hc. destruct Hc as [(now & _ & Hv) _].
+    apply verify_increases in Hv. cbn [map] in Hh.
+    destruct (N.to_nat (to - wrap64 (h_height from + 1))) as [|n]; [discriminate|]. cbn [seqN] in Hh.
+    injection Hh as Hu _. unfold wrap64 in *.
+    destruct (N.eq_dec (h_height from + 1) two64) as [E|E]; [|apply N.mod_small; lia].
+    rewrite E, N.mod_same in Hu by discriminate. lia. }
+  rewrite Hw in *.
+  split; [exact H1|]. split; [exact Hne|]. split; [exact Hh|]. split; [|exact Hc].
+  intros h Hin. rewrite Forall_forall in Hg. destruct (Hg h Hin) as (Ha & Hb).
+  apply (in_map h_height) in Hin. rewrite Hh in Hin. apply In_seqN in Hin.
   split; [lia|]. split; assumption.
 Qed.
 
-(** [from] at the largest height: nothing is ever returned *)
-Theorem max_height_never_ok drift tv maxcap per from to peers evs res :
-  h_nil from = false -> h_height from + 1 = two64 -> to < two64 -> 1 <= per ->
-  GetRangeByHeight drift tv maxcap per from to peers evs <> Some (ROk res).
-Proof.
-  intros Hnil Hf Ht Hper Hout.
-  assert (Hw : wrap64 (h_height from + 1) = 0) by (unfold wrap64; rewrite Hf; reflexivity).
-  destruct (call_inv drift tv maxcap per from to peers evs Hnil ltac:(lia) Ht Hper) as [(_ & H)|[(_ & _ & H)|(H1 & H2 & HI)]];
-    try congruence.
-  rewrite Hw in *. unfold GetRangeByHeight in Hout. unfold Inv in HI. rewrite Hout in HI.
-  destruct (final_linked _ _ _ _ _ _ _ _ HI) as (Hlen & Hall & Hlink).
-  destruct res as [|u res]; [cbn in Hlen; lia|].
-  destruct HI as [Hh _]. cbn [linked] in Hlink. destruct Hlink as ([Hv|Hv] & _);
-    destruct Hv as (now & _ & Hv); apply verify_increases in Hv;
-    rewrite Forall_forall in Hall; destruct (Hall u (or_introl eq_refl)) as (_ & _ & _ & Hlt); lia.
-Qed.
-
+(** every request without a height to return: ErrRangeMixUp before any event *)
 Theorem degenerate_is_error drift tv maxcap per from to peers evs :
-  h_height from + 1 < two64 -> to <= h_height from + 1 ->
+  h_height from < two64 -> to <= h_height from + 1 ->
   GetRangeByHeight drift tv maxcap per from to peers evs = Some (RErr ERangeMixUp).
 Proof.
   intros Hlt Hle. unfold GetRangeByHeight, get_range.
-  rewrite (wrap64_small _ Hlt). destruct (N.leb_spec to (h_height from + 1)) as [_|Hc]; [|lia].
-  erewrite run_done; reflexivity.
+  destruct (N.eqb_spec (h_height from) (two64 - 1)) as [Hmax|Hnmax].
+  - cbn [orb]. erewrite run_done; reflexivity.
+  - rewrite (wrap64_small (h_height from + 1)) by lia.
+    destruct (N.leb_spec to (h_height from + 1)) as [_|Hc]; [|lia].
+    cbn [orb]. erewrite run_done; reflexivity.
 Qed.
 
 (** no answer of any peer, in any order, makes the call panic (or the model run out of fuel) *)
 Theorem no_response_crashes drift tv maxcap per from to peers evs :
   h_nil from = false -> h_height from < two64 -> to < two64 -> 1 <= per ->
-  to - wrap64 (h_height from + 1) <= maxcap ->
+  to - (h_height from + 1) <= maxcap ->
   GetRangeByHeight drift tv maxcap per from to peers evs <> Some RPanic /\
   GetRangeByHeight drift tv maxcap per from to peers evs <> Some RFuel.
 Proof.
   intros Hnil Hf Ht Hper Hcap.
-  destruct (call_inv drift tv maxcap per from to peers evs Hnil Hf Ht Hper) as [(_ & H)|[(_ & H' & H)|(H1 & H2 & HI)]].
+  destruct (call_inv drift tv maxcap per from to peers evs Hnil Hf Ht Hper) as [(_ & H)|[(Hlt & H' & H)|(H1 & H2 & HI)]].
   - rewrite H. split; discriminate.
-  - lia.
+  - exfalso. destruct (N.eq_dec (h_height from + 1) two64) as [E|E].
+    + rewrite (call_at_max_height _ _ _ _ _ _ _ _ E) in H. discriminate.
+    + rewrite (wrap64_small (h_height from + 1)) in * by lia. lia.
   - unfold GetRangeByHeight. unfold Inv in HI.
     destruct (s_res (run drift tv maxcap from (get_range maxcap per from to peers) evs)) as [[l|e| |]|];
       try contradiction; split; discriminate.
 Qed.
 
+(** the precondition of [no_response_crashes] is needed: a range longer than any slice *)
 Theorem huge_range_panics drift tv maxcap per from to peers evs :
-  h_height from < two64 -> to < two64 -> 1 <= per ->
-  wrap64 (h_height from + 1) < to -> maxcap < to - wrap64 (h_height from + 1) ->
+  h_height from + 1 < two64 -> to < two64 -> 1 <= per ->
+  h_height from + 1 < to -> maxcap < to - (h_height from + 1) ->
   GetRangeByHeight drift tv maxcap per from to peers evs = Some RPanic.
 Proof.
   intros Hf Ht Hper Hlt Hcap. unfold GetRangeByHeight.
-  destruct (get_range_spec drift tv maxcap per from to peers Hf Ht Hper) as [(H1 & H2)|[(H1 & H2 & H3)|(H1 & H2 & _)]]; try lia.
+  destruct (get_range_spec drift tv maxcap per from to peers ltac:(lia) Ht Hper) as [(H1 & H2)|[(H1 & H2 & H3)|(H1 & H2 & _)]];
+    rewrite (wrap64_small _ Hf) in *; try lia.
   erewrite run_done; eassumption.
 Qed.
 
-(** the call returns a context / closed error only when the matching event happened *)
+(** the call returns an error only for a reason *)
 Lemma step_err drift tv maxcap from s ev e :
   s_res s = None -> s_res (step drift tv maxcap from s ev) = Some (RErr e) ->
-  (e = ECtx /\ ev = ECtxDone) \/ (e = EClosed /\ ev = EStop).
+  (e = ECtx /\ ev = ECtxDone) \/ (e = EClosed /\ ev = EStop) \/
+  (e = ENotChain /\ exists p now fs, ev = ERespond p now fs).
 Proof.
   intros Hres. unfold step. rewrite Hres.
   destruct ev as [p r|p now fs| |]; cbn [s_res set_res].
   - destruct (remove_peer p (s_idle s)); [destruct (remove_req r (s_queue s))|]; cbn [s_res]; congruence.
-  - destruct (take_flight p (s_flight s)) as [[r fl]|]; [|congruence].
+  - assert (Hfin : forall coll chunks, Some (finish now drift tv from coll chunks) = Some (RErr e) ->
+                   (e = ECtx /\ ERespond p now fs = ECtxDone) \/ (e = EClosed /\ ERespond p now fs = EStop) \/
+                   (e = ENotChain /\ exists p' now' fs', ERespond p now fs = ERespond p' now' fs')).
+    { intros coll chunks. unfold finish. destruct (verify_chunk_boundaries _ _ _ _ _); try discriminate.
+      intros [= <-]. right; right. split; [reflexivity|]. eauto. }
+    destruct (take_flight p (s_flight s)) as [[r fl]|]; [|congruence].
     destruct (do_request now drift tv from r fs) as [e'|h|]; cbn [s_res set_res]; try congruence.
     destruct (0 <? remaining r h).
     + destruct (prepare_requests maxcap _ _ _) as [| |[|x l]]; cbn [s_res set_res]; try congruence.
-      destruct (_ <=? _); congruence.
-    + cbn [s_res]. destruct (_ <=? _); congruence.
+      destruct (_ <=? _); [apply Hfin | congruence].
+    + cbn [s_res]. destruct (_ <=? _); [apply Hfin | congruence].
   - intros [= <-]. auto.
   - intros [= <-]. auto.
 Qed.
 
 Lemma run_err drift tv maxcap from evs : forall s e,
   s_res s = None -> s_res (run drift tv maxcap from s evs) = Some (RErr e) ->
-  (e = ECtx /\ In ECtxDone evs) \/ (e = EClosed /\ In EStop evs).
+  (e = ECtx /\ In ECtxDone evs) \/ (e = EClosed /\ In EStop evs) \/
+  (e = ENotChain /\ exists p now fs, In (ERespond p now fs) evs).
 Proof.
   induction evs as [|ev evs IH]; intros s e Hres Hout; [cbn in Hout; congruence|].
   cbn [run] in Hout.
   destruct (s_res (step drift tv maxcap from s ev)) as [r|] eqn:Hst.
   - rewrite (run_done _ _ _ _ _ _ _ Hst) in Hout. rewrite Hst in Hout. injection Hout as ->.
-    destruct (step_err _ _ _ _ _ _ _ Hres Hst) as [(-> & ->)|(-> & ->)]; [left | right]; split; auto; left; reflexivity.
-  - destruct (IH _ _ Hst Hout) as [(-> & Hin)|(-> & Hin)]; [left | right]; split; auto; right; exact Hin.
+    destruct (step_err _ _ _ _ _ _ _ Hres Hst) as [(-> & ->)|[(-> & ->)|(-> & p & now & fs & ->)]].
+    + left. split; [reflexivity | left; reflexivity].
+    + right; left. split; [reflexivity | left; reflexivity].
+    + right; right. split; [reflexivity|]. exists p, now, fs. left. reflexivity.
+  - destruct (IH _ _ Hst Hout) as [(-> & Hin)|[(-> & Hin)|(-> & p & now & fs & Hin)]].
+    + left. split; [reflexivity | right; exact Hin].
+    + right; left. split; [reflexivity | right; exact Hin].
+    + right; right. split; [reflexivity|]. exists p, now, fs. right. exact Hin.
 Qed.
 
-(** with [from] at the largest height every request with [to >= 1] waits for the context *)
-Theorem max_height_hangs drift tv maxcap per from to peers evs :
-  h_nil from = false -> h_height from + 1 = two64 -> 1 <= to -> to < two64 -> 1 <= per -> to <= maxcap ->
-  ~ In ECtxDone evs -> ~ In EStop evs ->
-  GetRangeByHeight drift tv maxcap per from to peers evs = None.
+Theorem errors_have_a_cause drift tv maxcap per from to peers evs e :
+  h_height from < two64 -> to < two64 -> 1 <= per ->
+  GetRangeByHeight drift tv maxcap per from to peers evs = Some (RErr e) ->
+  (e = ERangeMixUp /\ to <= h_height from + 1) \/
+  (e = ECtx /\ In ECtxDone evs) \/ (e = EClosed /\ In EStop evs) \/
+  (e = ENotChain /\ exists p now fs, In (ERespond p now fs) evs).
 Proof.
-  intros Hnil Hf H1 Ht Hper Hcap Hc Hs.
-  assert (Hw : wrap64 (h_height from + 1) = 0) by (unfold wrap64; rewrite Hf; reflexivity).
-  pose proof (max_height_never_ok drift tv maxcap per from to peers evs) as Hnever.
-  destruct (no_response_crashes drift tv maxcap per from to peers evs Hnil ltac:(lia) Ht Hper) as [Hp Hfu];
-    [rewrite Hw; lia|].
-  destruct (get_range_spec drift tv maxcap per from to peers ltac:(lia) Ht Hper) as [(Ha & _)|[(_ & Ha & _)|(_ & _ & H0 & _)]];
-    rewrite ?Hw in *; try lia.
-  unfold GetRangeByHeight in *.
-  destruct (s_res (run drift tv maxcap from (get_range maxcap per from to peers) evs)) as [[l|e| |]|] eqn:Hout;
-    try congruence.
-  - exfalso. exact (Hnever l Hnil Hf Ht Hper eq_refl).
-  - exfalso. destruct (run_err _ _ _ _ _ _ _ H0 Hout) as [(_ & Hin)|(_ & Hin)]; auto.
+  intros Hf Ht Hper. unfold GetRangeByHeight.
+  destruct (get_range_spec drift tv maxcap per from to peers Hf Ht Hper) as [(H1 & H2)|[(_ & _ & H2)|(_ & _ & H2 & _)]].
+  - rewrite (run_done _ _ _ _ _ _ _ H2), H2. intros [= <-]. left. split; [reflexivity|].
+    destruct H1 as [H1|H1]; [lia|]. pose proof (wrap64_le (h_height from + 1)).
+    destruct (N.eq_dec (h_height from + 1) two64) as [E|E]; [lia|].
+    rewrite (wrap64_small (h_height from + 1)) in H1 by lia. exact H1.
+  - rewrite (run_done _ _ _ _ _ _ _ H2), H2. discriminate.
+  - intros Hout. right. exact (run_err _ _ _ _ _ _ _ H2 Hout).
 Qed.
 
 (** ** examples (non-vacuity) *)
@@ -972,18 +1182,7 @@ Definition ex_fork (n : N) : hdr := Hdr false 1 n 0%Z (100 + n) (100 + n - 1) tr
 Definition ex_tv (t u : hdr) : tvres :=
   if h_height u =? h_height t + 1 then (if h_prev u =? h_id t then TVOk else TVPlain 1) else TVOk.
 
-Theorem errors_have_a_cause drift tv maxcap per from to peers evs e :
-  h_height from < two64 -> to < two64 -> 1 <= per ->
-  GetRangeByHeight drift tv maxcap per from to peers evs = Some (RErr e) ->
-  (e = ERangeMixUp /\ to <= wrap64 (h_height from + 1)) \/
-  (e = ECtx /\ In ECtxDone evs) \/ (e = EClosed /\ In EStop evs).
-Proof.
-  intros Hf Ht Hper. unfold GetRangeByHeight.
-  destruct (get_range_spec drift tv maxcap per from to peers Hf Ht Hper) as [(H1 & H2)|[(_ & _ & H2)|(_ & _ & H2 & _)]].
-  - rewrite (run_done _ _ _ _ _ _ _ H2), H2. intros [= <-]. left. split; [reflexivity | exact H1].
-  - rewrite (run_done _ _ _ _ _ _ _ H2), H2. discriminate.
-  - intros Hout. right. exact (run_err _ _ _ _ _ _ _ H2 Hout).
-Qed.
+
 
 (** * C18: honest peers *)
 
@@ -1024,7 +1223,7 @@ Lemma step_respond drift tv maxcap from s p now fs r fl :
   match do_request now drift tv from r fs with
   | DPanic => set_res s RPanic
   | DErr e => Sess (s_amount s) (s_queue s ++ [r])
-                   (match e with PNotFound => s_idle s ++ [p] | _ => s_idle s end) fl (s_coll s) None
+                   (match e with PNotFound => s_idle s ++ [p] | _ => s_idle s end) fl (s_coll s) (s_chunks s) None
   | DOk h =>
     match (if 0 <? remaining r h then
              match prepare_requests maxcap (wrap64 (h_height (last h hdr_nil) + 1)) (remaining r h) (r_amount r) with
@@ -1035,11 +1234,16 @@ Lemma step_respond drift tv maxcap from s p now fs r fl :
            else inr []) with
     | inl bad => set_res s bad
     | inr rq =>
-      Sess (s_amount s) (s_queue s ++ rq) (s_idle s ++ [p]) fl (s_coll s ++ h)
-           (if s_amount s <=? N.of_nat (length (s_coll s ++ h)) then Some (ROk (sort_h (s_coll s ++ h))) else None)
+      Sess (s_amount s) (s_queue s ++ rq) (s_idle s ++ [p]) fl (s_coll s ++ h) (s_chunks s ++ [h])
+           (if s_amount s <=? N.of_nat (length (s_coll s ++ h))
+            then Some (finish now drift tv from (s_coll s ++ h) (s_chunks s ++ [h])) else None)
     end
   end.
 Proof. intros Hres Htf. unfold step. rewrite Hres, Htf. reflexivity. Qed.
+
+Lemma finish_ok now drift tv from coll chunks l :
+  finish now drift tv from coll chunks = ROk l -> l = sort_h coll.
+Proof. unfold finish. destruct (verify_chunk_boundaries _ _ _ _ _); congruence. Qed.
 
 Section honest.
 Variables (drift : Z) (tv : hdr -> hdr -> tvres) (maxcap : N) (from : hdr).
@@ -1102,10 +1306,11 @@ Proof.
       { apply Forall_forall. intros x Hx. apply (honest_answer_on_chain a r); [exact Ha|].
         rewrite Hrest, frame_hdrs_app. apply in_or_app. left. apply Hincl, Hx. }
       assert (Hall : Forall on_chain (s_coll s ++ h)) by (apply Forall_app; split; assumption).
-      assert (Hfin : forall rq, CI (Sess (s_amount s) (s_queue s ++ rq) (s_idle s ++ [p]) fl (s_coll s ++ h)
-           (if s_amount s <=? N.of_nat (length (s_coll s ++ h)) then Some (ROk (sort_h (s_coll s ++ h))) else None))).
+      assert (Hfin : forall rq, CI (Sess (s_amount s) (s_queue s ++ rq) (s_idle s ++ [p]) fl (s_coll s ++ h) (s_chunks s ++ [h])
+           (if s_amount s <=? N.of_nat (length (s_coll s ++ h))
+            then Some (finish now drift tv from (s_coll s ++ h) (s_chunks s ++ [h])) else None))).
       { intros rq. split; cbn [s_coll s_res]; [exact Hall|].
-        destruct (_ <=? _); [|discriminate]. intros l [= <-].
+        destruct (_ <=? _); [|discriminate]. intros l [= Hl]. apply finish_ok in Hl. subst l.
         apply Forall_forall. intros x Hx. apply (proj1 (sort_h_In _ _)) in Hx.
         rewrite Forall_forall in Hall. apply Hall, Hx. }
       destruct (0 <? remaining r h); [|apply Hfin].
@@ -1177,7 +1382,7 @@ Lemma get_range_fresh maxcap per from to peers :
   s_coll (get_range maxcap per from to peers) = [] /\
   forall l, s_res (get_range maxcap per from to peers) <> Some (ROk l).
 Proof.
-  unfold get_range. destruct (_ <=? _); [split; [reflexivity | discriminate]|].
+  unfold get_range. destruct (_ || _); [split; [reflexivity | discriminate]|].
   destruct (prepare_requests _ _ _ _); try (split; [reflexivity | discriminate]).
   destruct (_ <? _); split; try reflexivity; discriminate.
 Qed.
@@ -1191,7 +1396,7 @@ Theorem exact_range drift tv maxcap per from to peers (c : N -> hdr) top evs res
   res = map c (seqN (h_height from + 1) (N.to_nat (to - (h_height from + 1)))).
 Proof.
   intros Hnil Hf Ht Hper Hch Hrun Hout.
-  destruct (result_shape _ _ _ _ _ _ _ _ _ Hnil Hf Ht Hper Hout) as (_ & _ & Hh & _).
+  destruct (result_shape _ _ _ _ _ _ _ _ _ Hnil ltac:(lia) Ht Hper Hout) as (_ & _ & Hh & _).
   destruct (get_range_fresh maxcap per from to peers) as [Hc0 Hr0].
   assert (HCI : CI c (get_range maxcap per from to peers)).
   { split; [rewrite Hc0; constructor|]. intros l Hl. exfalso. exact (Hr0 l Hl). }
@@ -1356,12 +1561,13 @@ Lemma step_accept nows U s p now fs r fl h :
   let rq := if 0 <? r_amount r - k then [Req (r_origin r + k) (r_amount r - k)] else [] in
   1 <= k /\ k <= r_amount r /\
   step drift tv maxcap from s (ERespond p now fs) =
-  Sess (s_amount s) (s_queue s ++ rq) (s_idle s ++ [p]) fl (s_coll s ++ h)
-       (if s_amount s <=? N.of_nat (length (s_coll s ++ h)) then Some (ROk (sort_h (s_coll s ++ h))) else None).
+  Sess (s_amount s) (s_queue s ++ rq) (s_idle s ++ [p]) fl (s_coll s ++ h) (s_chunks s ++ [h])
+       (if s_amount s <=? N.of_nat (length (s_coll s ++ h))
+        then Some (finish now drift tv from (s_coll s ++ h) (s_chunks s ++ [h])) else None).
 Proof.
   intros HL Hres Htf Hdo k rq.
   destruct (take_flight_spec _ _ _ _ Htf) as (Hin & _).
-  destruct HL as [_ _ _ H4 _].
+  destruct HL as [_ _ _ H4 _ _ _].
   assert (Hr : 1 <= r_amount r /\ start <= r_origin r /\ r_origin r + r_amount r <= start + amount).
   { rewrite Forall_forall in H4. apply H4. unfold outstanding. apply in_or_app. right.
     apply in_map_iff. exists (p, r). split; [reflexivity | exact Hin]. }
@@ -1394,7 +1600,7 @@ Theorem honest_progress nows U s p now fs r fl a rest :
 Proof.
   intros HL Hres Htf Hcv Hatop Hans Hne Hcap s'.
   destruct (take_flight_spec _ _ _ _ Htf) as (Hin & _ & Hsum & _).
-  pose proof HL as [_ _ _ H4 _].
+  pose proof HL as [_ _ _ H4 _ _ _].
   assert (Hr : 1 <= r_amount r /\ start <= r_origin r /\ r_origin r + r_amount r <= start + amount).
   { rewrite Forall_forall in H4. apply H4. unfold outstanding. apply in_or_app. right.
     apply in_map_iff. exists (p, r). split; [reflexivity | exact Hin]. }
@@ -1434,7 +1640,7 @@ Proof.
       destruct (Hrel now fs eq_refl) as [Hne Hcv].
       unfold honest_ev in Hh. rewrite Htf in Hh. destruct Hh as (a & rest & Hatop & Hans).
       destruct (take_flight_spec _ _ _ _ Htf) as (Hin & _).
-      pose proof HI as [_ _ _ H4 _].
+      pose proof HI as [_ _ _ H4 _ _ _].
       assert (Hr : 1 <= r_amount r /\ start <= r_origin r /\ r_origin r + r_amount r <= start + amount).
       { rewrite Forall_forall in H4. apply H4. unfold outstanding. apply in_or_app. right.
         apply in_map_iff. exists (p, r). split; [reflexivity | exact Hin]. }
@@ -1471,7 +1677,7 @@ Lemma run_no_deadlock p evs : forall nows U s,
 Proof.
   induction evs as [|ev evs IH]; intros nows U s HI Hnd Hhas Hrun Hrel s' _ Hres'.
   - subst s'. cbn [run] in *. unfold Inv in HI. rewrite Hres' in HI.
-    destruct HI as [H1 _ H3 _ _]. specialize (Hnd Hres'). rewrite H1 in Hnd.
+    destruct HI as [H1 _ H3 _ _ _ _]. specialize (Hnd Hres'). rewrite H1 in Hnd.
     destruct (s_flight s) as [|x fl] eqn:Hfl; [|left; discriminate]. right.
     unfold outstanding in H3. rewrite Hfl in H3. cbn [map] in H3. rewrite app_nil_r in H3.
     split.
@@ -1485,7 +1691,7 @@ Proof.
     + intros now fs Hin. apply Hrel. right. exact Hin.
     + destruct (s_res (step drift tv maxcap from s ev)) eqn:E; [right; discriminate|].
       left. pose proof (step_inv drift tv maxcap from start amount Hnil Hbound nows U s ev HI) as HI'.
-      unfold Inv in HI'. rewrite E in HI'. destruct HI' as [H1 _ _ _ _]. exact H1.
+      unfold Inv in HI'. rewrite E in HI'. destruct HI' as [H1 _ _ _ _ _ _]. exact H1.
 Qed.
 
 End progress.
@@ -1523,13 +1729,13 @@ Theorem measure_counts_missing evs :
   N.of_nat (length (s_coll s)) + mu s = to - (h_height from + 1) /\ 1 <= mu s.
 Proof.
   intros s Hres. destruct (reachable_live evs Hres) as (Hlt & H0 & HL).
-  fold s in HL. pose proof HL as [H1 _ H3 _ _]. unfold mu. split; [exact H3|].
+  fold s in HL. pose proof HL as [H1 _ H3 _ _ _ _]. unfold mu. split; [exact H3|].
   assert (Hnd : not_done s).
   { subst s. clear Hres HL H1 H3. induction evs as [|ev evs IH] using rev_ind.
     - cbn [run]. intros _. destruct (get_range_fresh maxcap per from to peers) as [Hc _].  rewrite Hc.
       destruct (get_range_spec drift tv maxcap per from to peers ltac:(lia) Ht Hper) as [(_ & H)|[(_ & _ & H)|(Ha & _ & _ & _ & _ & HL0)]];
         try congruence.
-      destruct HL0 as [Hamt _ _ _ _]. rewrite (wrap64_small _ Hf) in *. rewrite Hamt. cbn. lia.
+      destruct HL0 as [Hamt _ _ _ _ _ _]. rewrite (wrap64_small _ Hf) in *. rewrite Hamt. cbn. lia.
     - assert (Hrun : forall l1 l2 st, run drift tv maxcap from st (l1 ++ l2) =
                                       run drift tv maxcap from (run drift tv maxcap from st l1) l2).
       { induction l1 as [|a l1 IHl]; intros l2 st; [reflexivity|]. cbn [app run]. apply IHl. }
@@ -1587,9 +1793,9 @@ Proof.
                          ltac:(subst start amount; lia) ltac:(subst start; lia) p evs [] [] s0); auto.
   - unfold Inv. rewrite H0. exact HL0.
   - intros _. destruct (get_range_fresh maxcap per from to peers) as [Hc _].  rewrite Hc.
-    destruct HL0 as [Hamt _ _ _ _]. rewrite Hamt. cbn. subst amount. lia.
+    destruct HL0 as [Hamt _ _ _ _ _ _]. rewrite Hamt. cbn. subst amount. lia.
   - left. rewrite Hidle. exact Hp.
-  - left. destruct HL0 as [Hamt _ _ _ _]. exact Hamt.
+  - left. destruct HL0 as [Hamt _ _ _ _ _ _]. exact Hamt.
 Qed.
 
 End from_start.
@@ -1604,10 +1810,10 @@ Proof.
   rewrite Ht. cbn. rewrite Hok. destruct want as [w|]; [|reflexivity]. subst w. rewrite N.eqb_refl. reflexivity.
 Qed.
 
-(** ** the two halves of [result_shape], and the refutation of the strict reading *)
+(** ** the two halves of [result_shape] *)
 
 Theorem result_heights drift tv maxcap per from to peers evs res :
-  h_nil from = false -> h_height from + 1 < two64 -> to < two64 -> 1 <= per ->
+  h_nil from = false -> h_height from < two64 -> to < two64 -> 1 <= per ->
   GetRangeByHeight drift tv maxcap per from to peers evs = Some (ROk res) ->
   h_height from + 1 < to /\
   res <> [] /\
@@ -1620,30 +1826,11 @@ Proof.
 Qed.
 
 Theorem result_verified drift tv maxcap per from to peers evs res :
-  h_nil from = false -> h_height from + 1 < two64 -> to < two64 -> 1 <= per ->
+  h_nil from = false -> h_height from < two64 -> to < two64 -> 1 <= per ->
   GetRangeByHeight drift tv maxcap per from to peers evs = Some (ROk res) ->
-  linked (verified_during drift tv evs) from from res.
+  chain (verified_during drift tv evs) from res.
 Proof.
   intros H1 H2 H3 H4 H5.
   destruct (result_shape drift tv maxcap per from to peers evs res H1 H2 H3 H4 H5) as (_ & _ & _ & _ & E).
   exact E.
-Qed.
-
-Theorem result_verified_refuted :
-  exists drift tv maxcap per (from : hdr) (to : N) peers evs res pre a b post,
-    h_nil from = false /\ h_height from + 1 < two64 /\ to < two64 /\ 1 <= per /\
-    GetRangeByHeight drift tv maxcap per from to peers evs = Some (ROk res) /\
-    res = pre ++ a :: b :: post /\
-    forall now, Verify now drift tv a b <> None.
-Proof.
-  exists 0%Z, ex_tv, 100, 3, (ex_hdr 10), 16, [0; 1],
-    [EDispatch 0 (Req 11 3); EDispatch 1 (Req 14 2);
-     ERespond 0 5%Z [FHdr (ex_hdr 11); FHdr (ex_hdr 12); FHdr (ex_hdr 13)];
-     ERespond 1 5%Z [FHdr (ex_fork 14); FHdr (ex_fork 15)]],
-    [ex_hdr 11; ex_hdr 12; ex_hdr 13; ex_fork 14; ex_fork 15],
-    [ex_hdr 11; ex_hdr 12], (ex_hdr 13), (ex_fork 14), [ex_fork 15].
-  split; [reflexivity|]. split; [vm_compute; reflexivity|]. split; [vm_compute; reflexivity|].
-  split; [vm_compute; discriminate|]. split; [vm_compute; reflexivity|]. split; [reflexivity|].
-  intros now. unfold Verify, verify_mand. cbn.
-  destruct (now + 0 <? 0)%Z; discriminate.
 Qed.
